@@ -4,19 +4,19 @@ CONSTANTS
   Keys = {1, 2, 3, 4, 5}
   ForeignKeys = {4, 5}
   KindOf <- MCKindOf
-  ScriptChoices <- ScrClosedRead
+  ScriptChoices <- ScrRace
   NItems = 2
   NH = 3
   MaxObj = 3
   MaxSock = 3
-  CbUnderLock = TRUE
-  Capture = FALSE
-  GiveUp = FALSE
-  PreCheckClosed = FALSE
-  NilPacketSock = FALSE
-  CloseWaits = FALSE
+  CbUnderLock = FALSE
+  Capture = TRUE
+  GiveUp = TRUE
+  PreCheckClosed = TRUE
+  NilPacketSock = TRUE
+  CloseWaits = TRUE
   ErrAware = TRUE
-  RecheckAfterRecv = FALSE
-  AcceptErrors = 0
+  RecheckAfterRecv = TRUE
+  AcceptErrors = 1
 INVARIANTS NoBadEvent CleanAfterAllClosed
 VIEW View
